@@ -461,17 +461,21 @@ class C01:
     LEVEL = "exploration"
     TIMEOUT = 40.0
     RULE = ("case = generated heap-shape program: 3-9 gadgets, each either a retention chain root -> e1..e4 -> target (19 edge kinds "
-            "x 18 target kinds x 23 root kinds; the chain is the only path to the target; allocation churn between building and "
-            "reading it back) or one of 51 operations that make the interpreter hold fresh unreferenced objects mid-operation "
-            "(14 of them failing; the error message is read back afterwards, so that the error object is allocated meanwhile); every case is executed under never-collect, "
-            "collect-at-every-allocation and a PRNG collection tape (rate 1/2, 1/8 or 1/64), all with quarantine. non-trivial = the "
-            "always run reclaimed >= 1 object and the case has >= 1 chain; distinct = distinct program hash")
+            "x 18 target kinds x %d root kinds; the chain is the only path to the target; allocation churn between building and "
+            "reading it back) or one of %d operations that make the interpreter hold fresh unreferenced objects mid-operation "
+            "(%d of them failing; the error message is read back afterwards, so that the error object is allocated meanwhile); every case is executed under never-collect, "
+            "collect-at-every-allocation and a PRNG collection tape (rate 1/2, 1/8 or 1/64), all with quarantine (monitors: use after "
+            "reclaim on every managed dereference, nothing reclaimed while borrowed), then on the plain checked build (collects at "
+            "every allocation and really frees: address reuse), and 1/24 of the cases on that build under valgrind memcheck; every "
+            "run is compared with the never-collect run. non-trivial = the always run reclaimed >= 1 object and the case has >= 1 "
+            "chain; distinct = distinct program hash" % (len(ROOTS), len(OPS) + len(FAIL_OPS), len(FAIL_OPS)))
     COMPONENTS = {"real": ["yarel compiler", "VM", "heap: mark_roots/trace_references/sweep and every GcManaged impl", "Root/UniqueRoot handles", "core library"],
                   "stub": ["collection pacing decision (never / always / tape) and reclamation (quarantine instead of free) via verif_hooks",
-                           "use-after-reclaim monitor on every managed dereference and open-captured-variable access"]}
+                           "use-after-reclaim monitor on every managed dereference and open-captured-variable access; reclaimed-while-borrowed monitor at every sweep",
+                           "valgrind memcheck around the unmodified runner binary (slice)"]}
     ASSUMPTIONS = ["collect-at-every-allocation dominates every other schedule for detecting a missing trace edge (quarantined objects keep their contents, so the program computes the same values under every schedule)",
                    "a premature reclaim is only visible if the program later touches the object (every gadget reads its target back)",
-                   "real free() is never exercised inside a scenario (allocator-level corruption is out of scope)"]
+                   "real free() is exercised by the plain checked run and the memcheck slice only (glibc's allocator under the plain run, valgrind's under memcheck)"]
 
     def configs(self, tier):
         return ["checked+hooks", "checked"]
